@@ -191,6 +191,167 @@ theorem parseHeader_headerLine (a b c : Nat) :
   rw [ht]
   simp [parseNat_renderNat]
 
+
+/-! ### prefixes of a header line (for the truncation theorem) -/
+
+theorem tokens_digits (w : Bytes) (hw : ∀ b ∈ w, isDigit b = true) :
+    tokensAux w [] = if w = [] then [] else [w] := by
+  by_cases h : w = []
+  · subst h; simp [tokensAux]
+  · rw [tokensAux_word_end w [] (fun b hb => isDigit_not_ws (hw b hb)) (Or.inl h)]
+    simp [h]
+
+/-- a prefix `r` of `A␠B␠C` (digit strings) that splits into three tokens is `A␠B␠c` with `c` a
+non-empty prefix of `C` -/
+theorem tokens_prefix3 (A B C r t : Bytes)
+    (hA : ∀ b ∈ A, isDigit b = true) (hB : ∀ b ∈ B, isDigit b = true) (hC : ∀ b ∈ C, isDigit b = true)
+    (hAne : A ≠ []) (hBne : B ≠ [])
+    (h : r ++ t = A ++ 32 :: (B ++ 32 :: C)) (a b c : Bytes) (ht : tokens r = [a, b, c]) :
+    a = A ∧ b = B ∧ c ≠ [] ∧ c ++ t = C := by
+  have wsA : ∀ x ∈ A, isWs x = false := fun x hx => isDigit_not_ws (hA x hx)
+  have wsB : ∀ x ∈ B, isWs x = false := fun x hx => isDigit_not_ws (hB x hx)
+  unfold tokens at ht
+  rcases List.append_eq_append_iff.1 h with ⟨a', hr, _⟩ | ⟨c', hr, hc⟩
+  · -- r is a prefix of A
+    have hrd : ∀ x ∈ r, isDigit x = true := fun x hx => hA x (by rw [hr]; simp [hx])
+    rw [tokens_digits r hrd] at ht
+    split at ht <;> simp at ht
+  · cases c' with
+    | nil =>
+      simp only [List.append_nil] at hr
+      rw [hr, tokens_digits A hA] at ht
+      split at ht <;> simp at ht
+    | cons x c'' =>
+      simp only [List.cons_append, List.cons.injEq] at hc
+      obtain ⟨hx, hc⟩ := hc
+      subst hx
+      rw [hr, tokensAux_word_sp A c'' [] wsA (Or.inl hAne)] at ht
+      simp only [List.reverse_nil, List.nil_append, List.cons.injEq] at ht
+      obtain ⟨ha, ht⟩ := ht
+      rcases List.append_eq_append_iff.1 hc.symm with ⟨b', hr2, _⟩ | ⟨d', hr2, hd⟩
+      · -- c'' is a prefix of B
+        have hcd : ∀ x ∈ c'', isDigit x = true := fun x hx => hB x (by rw [hr2]; simp [hx])
+        rw [tokens_digits c'' hcd] at ht
+        split at ht <;> simp at ht
+      · cases d' with
+        | nil =>
+          simp only [List.append_nil] at hr2
+          rw [hr2, tokens_digits B hB] at ht
+          split at ht <;> simp at ht
+        | cons y d'' =>
+          simp only [List.cons_append, List.cons.injEq] at hd
+          obtain ⟨hy, hd⟩ := hd
+          subst hy
+          rw [hr2, tokensAux_word_sp B d'' [] wsB (Or.inl hBne)] at ht
+          simp only [List.reverse_nil, List.nil_append, List.cons.injEq] at ht
+          obtain ⟨hb, ht⟩ := ht
+          have hdd : ∀ x ∈ d'', isDigit x = true := fun x hx => hC x (by rw [hd]; simp [hx])
+          rw [tokens_digits d'' hdd] at ht
+          split at ht
+          · simp at ht
+          · rename_i hne
+            simp only [List.cons.injEq, and_true] at ht
+            subst ht
+            exact ⟨ha.symm, hb.symm, hne, hd.symm⟩
+
+theorem foldl_dstep_ge : ∀ (ds : Bytes) (acc : Nat), acc ≤ ds.foldl dstep acc
+  | [], _ => Nat.le_refl _
+  | d :: ds, acc => by
+    simp only [List.foldl_cons]
+    have : acc ≤ dstep acc d := by unfold dstep; omega
+    exact Nat.le_trans this (foldl_dstep_ge ds _)
+
+/-- a digit string whose value is 0 starts with `'0'` -/
+theorem head_zero_of_value_zero (d : Nat) (ds : Bytes) (hd : isDigit d = true)
+    (h : (d :: ds).foldl dstep 0 = 0) : d = 48 := by
+  simp only [List.foldl_cons] at h
+  have := foldl_dstep_ge ds (dstep 0 d)
+  rw [h] at this
+  unfold dstep at this
+  simp [isDigit] at hd
+  omega
+
+/-- `str(n)` has no leading zero unless `n = 0` -/
+theorem renderNatAux_head : ∀ (f n : Nat) (acc : Bytes), n < f → 0 < n →
+    ∃ d rest, renderNatAux f n acc = d :: rest ∧ d ≠ 48
+  | 0, n, _, h, _ => by omega
+  | f + 1, n, acc, h, hn => by
+    unfold renderNatAux
+    split
+    · exact ⟨48 + n, acc, rfl, by omega⟩
+    · exact renderNatAux_head f (n / 10) _ (by omega) (by omega)
+
+theorem renderNat_head_zero (n : Nat) (rest : Bytes) (h : renderNat n = 48 :: rest) : n = 0 := by
+  by_cases hn : n = 0
+  · exact hn
+  · obtain ⟨d, r, hr, hd⟩ := renderNatAux_head (n + 1) n [] (by omega) (by omega)
+    unfold renderNat at h
+    rw [hr] at h
+    simp only [List.cons.injEq] at h
+    exact absurd h.1 hd
+
+theorem renderNat_zero : renderNat 0 = [48] := by decide
+
+/-- a non-empty prefix of `str(n)` that reads as the number 0 is all of `str(n)`, and `n = 0` -/
+theorem prefix_value_zero (n : Nat) (c t : Bytes) (hc : c ≠ []) (h : c ++ t = renderNat n)
+    (z : Int) (hz : parseInt c = some z) (hz0 : z.toNat = 0) : n = 0 ∧ t = [] := by
+  have hcd : ∀ x ∈ c, isDigit x = true := fun x hx => renderNat_digits n x (by rw [← h]; simp [hx])
+  cases c with
+  | nil => exact absurd rfl hc
+  | cons d ds =>
+    have hd : isDigit d = true := hcd d (by simp)
+    have h43 : d ≠ 43 := by intro e; simp [e, isDigit] at hd
+    have h45 : d ≠ 45 := by intro e; simp [e, isDigit] at hd
+    have hdv := digitsVal_allDigits (d :: ds) 0 false hcd (Or.inl (by simp))
+    have hval : z = Int.ofNat ((d :: ds).foldl dstep 0) := by
+      unfold parseInt at hz
+      split at hz
+      · rename_i heq; cases heq
+      · rename_i heq; cases heq; exact absurd rfl h43
+      · rename_i heq; cases heq; exact absurd rfl h45
+      · rw [hdv] at hz
+        simp only [Option.map_some, Option.some.injEq] at hz
+        exact hz.symm
+    have hv0 : (d :: ds).foldl dstep 0 = 0 := by
+      rw [hval] at hz0
+      simpa using hz0
+    have hd48 := head_zero_of_value_zero d ds hd hv0
+    subst hd48
+    have hn : n = 0 := renderNat_head_zero n (ds ++ t) (by rw [← h]; simp)
+    subst hn
+    rw [renderNat_zero] at h
+    simp only [List.cons_append, List.cons.injEq, true_and, List.append_eq_nil_iff] at h
+    exact ⟨rfl, h.2⟩
+
+/-- **the header of a cut report**: if a prefix `r` of the header line parses as a header that
+announces no names, it carries exactly the child's numbers, and the child's lists were empty -/
+theorem parseHeader_prefix_zero (ran nf ne : Nat) (r t : Bytes) (h : r ++ t = headerLine ran nf ne)
+    (x y z : Int) (hp : parseHeader r = some (x, y, z)) (h0 : y.toNat + z.toNat = 0) :
+    x = Int.ofNat ran ∧ nf = 0 ∧ ne = 0 := by
+  have e : headerLine ran nf ne = renderNat ran ++ 32 :: (renderNat nf ++ 32 :: renderNat ne) := by
+    unfold headerLine; simp
+  rw [e] at h
+  unfold parseHeader at hp
+  split at hp
+  · rename_i a b c htok
+    obtain ⟨ha, hb, hcne, hct⟩ := tokens_prefix3 _ _ _ r t (renderNat_digits ran) (renderNat_digits nf)
+      (renderNat_digits ne) (renderNat_ne_nil ran) (renderNat_ne_nil nf) h a b c htok
+    subst ha; subst hb
+    rw [parseNat_renderNat, parseNat_renderNat] at hp
+    cases hz : parseInt c with
+    | none => rw [hz] at hp; simp at hp
+    | some z' =>
+      rw [hz] at hp
+      simp only [Option.some.injEq, Prod.mk.injEq] at hp
+      obtain ⟨hx, hy, hzz⟩ := hp
+      subst hx; subst hy; subst hzz
+      have hy0 : nf = 0 := by
+        have : (Int.ofNat nf).toNat = nf := rfl
+        omega
+      have hz0 : z'.toNat = 0 := by omega
+      exact ⟨rfl, hy0, (prefix_value_zero ne c t hcne hct z' hz hz0).1⟩
+  · cases hp
+
 /-! ### header search -/
 
 theorem findHeader_skip : ∀ (pre : List Bytes) (rest : List Bytes),
